@@ -4,6 +4,7 @@ import (
 	"encoding/json"
 	"flag"
 	"fmt"
+	"go/token"
 	"os"
 	"sort"
 	"strings"
@@ -58,6 +59,9 @@ func main() {
 					if strings.HasPrefix(sn, "call:") || strings.HasPrefix(sn, "defer:") {
 						ss = append(ss, fmt.Sprintf("%s\t%s", v.prog.Fset.Position(in.Pos()), sn))
 					}
+				}
+				for _, li := range x.loops {
+					ss = append(ss, fmt.Sprintf("%s\tloop %d", v.prog.Fset.Position(token.Pos(x.headPos(li.head))), li.ordinal))
 				}
 				sort.Strings(ss)
 				fmt.Println("==", k)
